@@ -667,12 +667,13 @@ pub struct ScanOut { pub matches: Vec<(usize, usize, Option<u8>)>, pub panic: Op
 // that hold for every buffer (so that the rule's patterns are reported with the matching rule)
 const CONDS: &[&str] = &["#a >= 0", "for all i in (1..#a) : (@a[i] >= 0)", "#a >= 0 and for all i in (1..#a) : (!a[i] >= 0)", "#a == 0 or $a"];
 
-pub fn rule_source(p: &Pat, cond: usize, noise: bool) -> String {
+/// `noise`: number of extra distinct 6-byte literals in a second rule.  The number of atoms in the
+/// rule set selects the search kernel: Teddy slim (<= 32 atoms), Teddy fat (33..64), Aho-Corasick (> 64).
+pub fn rule_source(p: &Pat, cond: usize, noise: usize) -> String {
     let mut s = format!("rule r {{\n  strings:\n    $a = {}\n  condition:\n    {}\n}}\n", yara_pat(p), CONDS[cond % CONDS.len()]);
-    if noise {
-        // > 64 atoms in the rule set: Aho-Corasick instead of Teddy
+    if noise > 0 {
         s.push_str("rule noise {\n  strings:\n");
-        for i in 0..70 { let _ = write!(s, "    $n{} = \"N{:02}Zq{}\"\n", i, i, (b'a' + (i % 26) as u8) as char); }
+        for i in 0..noise { let _ = write!(s, "    $n{} = \"N{:02}Zq{}\"\n", i, i, (b'a' + (i % 26) as u8) as char); }
         s.push_str("  condition:\n    any of them\n}\n");
     }
     s
@@ -713,7 +714,16 @@ pub fn scan(src: &str, data: &[u8], max_matches: Option<usize>) -> Result<ScanOu
 fn coq_key(k: &Option<u8>) -> String { match k { Some(k) => format!("(Some {})", k), None => "None".into() } }
 
 fn list_case(cap: usize, adds: &[(usize, usize, Option<u8>, bool)]) -> (String, String, usize) {
-    let (rets, fin) = hook::run_match_list(cap, adds);
+    let (rets, fin) = match catch(AssertUnwindSafe(|| hook::run_match_list(cap, adds))) {
+        Ok(r) => r,
+        Err(msg) => {
+            // the shortest prefix of the sequence that still panics
+            let k = (1..=adds.len()).find(|k| catch(AssertUnwindSafe(|| hook::run_match_list(cap, &adds[..*k]))).is_err()).unwrap_or(adds.len());
+            let replay = format!("{{\"stream\":\"matchlist\",\"shape\":\"list:panic\",\"capacity\":{},\"adds\":{},\"panic\":{}}}",
+                cap, json_str(&format!("{:?}", &adds[..k])), json_str(&msg));
+            return (format!("MLPanicCase {}", coq_nat(k)), replay, 0);
+        }
+    };
     let case = format!("ListCase {} {} {}",
         coq_list(adds, |(s, e, k, r)| format!("({},{},{},{})", s, e, coq_key(k), coq_bool(*r))),
         coq_list(&rets, |b| coq_bool(*b).to_string()),
@@ -768,7 +778,20 @@ fn gen_ml_case(rng: &mut Rng, stats: &mut Stats) -> (String, String, String) {
                              hook::Op::Add { pid: 0, start: 5, end: 6, key: None, replace: false }, hook::Op::InRange { pid: 0, lo: 0, hi: 9 }] } else { vec![] };
     ops.extend(post.iter().cloned());
     if big { stats.inc("ml_pm_big_capacity"); }
-    let (res, dump) = hook::run_pattern_matches(&ops, npids);
+    let (res, dump) = match catch(AssertUnwindSafe(|| hook::run_pattern_matches(&ops, npids))) {
+        Ok(r) => r,
+        Err(msg) => {
+            // the shortest prefix of the sequence that still panics; its last operation is the culprit
+            let kp = if ops.len() > 200 { ops.len() } else {
+                (1..=ops.len()).find(|kp| catch(AssertUnwindSafe(|| hook::run_pattern_matches(&ops[..*kp], npids))).is_err()).unwrap_or(ops.len()) };
+            stats.inc("ml_pm_panicked");
+            let shown: Vec<_> = if kp <= 200 { ops[..kp].iter().collect() } else { pre.iter().collect() };
+            let replay = format!("{{\"stream\":\"matchlist\",\"shape\":\"pattern_matches:panic\",\"ops\":{},\"big_run\":[{},{}],\"panicked_at_op\":{},\"panic\":{}}}",
+                json_str(&format!("{:?}", shown)), k, run_len,
+                json_str(&format!("{:?}", ops.get(kp.saturating_sub(1)))), json_str(&msg));
+            return (format!("MLPanicCase {}", coq_nat(kp)), replay, format!("pm-panic:{:?}", shown));
+        }
+    };
     stats.inc("ml_pm_cases");
     if res.iter().any(|r| matches!(r, hook::OpResult::MaxMatchesReached)) { stats.inc("ml_pm_limit_reached"); }
     if res.iter().any(|r| matches!(r, hook::OpResult::Updated)) { stats.inc("ml_pm_same_start"); }
@@ -801,7 +824,7 @@ fn gen_ml_case(rng: &mut Rng, stats: &mut Stats) -> (String, String, String) {
 }
 
 // ------------------------------------------------------------------ stream (b)
-fn scan_case(p: &Pat, data: &[u8], cond: usize, noise: bool, max_matches: Option<usize>, idx: usize) -> Result<(String, String, ScanOut), String> {
+fn scan_case(p: &Pat, data: &[u8], cond: usize, noise: usize, max_matches: Option<usize>, idx: usize) -> Result<(String, String, ScanOut), String> {
     let src = rule_source(p, cond, noise);
     let out = scan(&src, data, max_matches)?;
     let case = format!("ScanCase {} {} {} {} {}", coq_pat(p), coq_list(data, |b| b.to_string()),
@@ -860,6 +883,104 @@ fn corpus() -> Vec<(Pat, Vec<u8>, Option<usize>)> {
     ]
 }
 
+// ------------------------------------------------------------------ stream (c): directed shapes
+/// (c1) `<4+ plain bytes> [n-m] <nibble-masked byte> <plain bytes>` and its mirror image: the atom is
+/// the long literal, the jump runs forward (backward) into a piece that starts (ends) with a masked
+/// byte; the buffer holds one instance for each of the 16 values of the free nibble.
+fn directed_jump_mask(rng: &mut Rng, forward: bool) -> (Pat, Vec<u8>) {
+    let plain = |rng: &mut Rng, n: usize| -> Vec<u8> { (0..n).map(|_| *rng.pick(b"ABCDEFGHKLMNPRSTUVWXYZ")).collect() };
+    let nlong = 4 + rng.below(3) as usize;
+    let long = plain(rng, nlong);
+    let short: Vec<u8> = (0..1 + rng.below(3) as usize).map(|_| *rng.pick(b"abcdefgh")).collect();
+    let (mn, mx) = *rng.pick(&[(1usize, 4usize), (0, 3), (2, 6), (1, 2), (0, 8)]);
+    let high_free = rng.chance(1, 2);                       // ?5 (high nibble free) or 5? (low nibble free)
+    let fixed = 1 + rng.below(14) as u8;
+    let (val, mask) = if high_free { (fixed, 0x0Fu8) } else { (fixed << 4, 0xF0u8) };
+    let jump = Re::Rep(Box::new(Re::Cls(Cls::Any)), mn, Some(mx), false);
+    let masked = Re::Cls(Cls::Mask(val, mask));
+    let re = if forward { Re::Cat(vec![Re::Lit(long.clone()), jump, masked, Re::Lit(short.clone())]) }
+             else { Re::Cat(vec![Re::Lit(short.clone()), masked, jump, Re::Lit(long.clone())]) };
+    let mut buf = vec![];
+    let mut order: Vec<u8> = (0..16).collect();
+    for i in (1..16).rev() { let j = rng.below(i as u64 + 1) as usize; order.swap(i, j); }
+    for x in order {
+        let b = if high_free { (x << 4) | val } else { val | x };
+        let gap: Vec<u8> = (0..mn + rng.below((mx - mn) as u64 + 1) as usize).map(|_| *rng.pick(b"0123456789.-")).collect();
+        if forward { buf.extend(&long); buf.extend(&gap); buf.push(b); buf.extend(&short); }
+        else { buf.extend(&short); buf.push(b); buf.extend(&gap); buf.extend(&long); }
+        if rng.chance(1, 2) { buf.push(b' '); }
+    }
+    (Pat::Hex(re), buf)
+}
+
+/// (c2) a literal of at least 4 bytes in a rule set of a chosen size, in a buffer of a chosen length
+/// with the occurrence (hence its atom) at a chosen offset: every offset mod 16 around the block
+/// boundaries of the SIMD kernels and in the last 19 bytes.
+fn directed_teddy(rng: &mut Rng) -> (Pat, Vec<u8>, usize) {
+    let len = 4 + rng.below(5) as usize;
+    let text: Vec<u8> = (0..len).map(|_| *rng.pick(b"abcdefghijkmnpqrstuvwxyz0123456789")).collect();
+    let noise = *rng.pick(&[0usize, 1, 3, 7, 19, 31, 32, 32, 39, 39, 47, 47, 62, 62, 63, 63, 64, 70, 90]);
+    let l = 16 + rng.below(65) as usize;                    // 16..80
+    let max_off = l.saturating_sub(len);
+    let block = |l: usize| 16 * ((l.saturating_sub(3)) / 16);
+    let mut offs = vec![];
+    let first = match rng.below(8) {
+        0 | 1 => block(l),                                  // first position the main loop may not cover
+        2 => block(l).saturating_sub(16),
+        3 | 4 => { let n = 16 * (1 + rng.below((l / 16).max(1) as u64) as usize); (n as i64 + rng.range(-3, 3)).max(0) as usize }
+        5 => l.saturating_sub(19) + rng.below(19.min(l) as u64) as usize,   // the last 19 bytes
+        6 => max_off,                                       // ends at the last byte
+        _ => rng.below(max_off as u64 + 1) as usize,
+    }.min(max_off);
+    offs.push(first);
+    if rng.chance(1, 3) { let o2 = rng.below(max_off as u64 + 1) as usize; if o2 + len <= first || first + len <= o2 { offs.push(o2); } }
+    let mut buf: Vec<u8> = (0..l).map(|_| *rng.pick(b".,;:-= ")).collect();
+    for o in offs { buf[o..o + len].copy_from_slice(&text); }
+    let mut m = TMods::default();
+    if rng.chance(1, 6) { m.fullword = true; }
+    (Pat::Text(text, m), buf, noise)
+}
+
+const MASKED_LITERAL_LENGTHS: &[usize] = &[15, 16, 17, 18, 19, 20, 31, 32, 33, 34, 35, 47, 48, 49, 50, 63, 64, 65, 66];
+
+/// (c3) a masked literal (a hex pattern of plain bytes and a few nibble masks, no jumps) of a length
+/// around the SIMD chunk sizes; buffers hold a genuine instance and near-misses that differ from it
+/// in exactly one byte, at the first and last positions and around every multiple of 16
+/// (every position for the short ones).
+fn directed_masked_literal(rng: &mut Rng, len: usize) -> (Pat, Vec<Vec<u8>>) {
+    let mut items = vec![]; let mut inst = vec![]; let mut sig = vec![];   // sig: the bits that matter
+    let nmask = 1 + rng.below(3) as usize;
+    let mask_pos: Vec<usize> = (0..nmask).map(|_| 1 + rng.below(len as u64 - 2) as usize).collect();
+    for i in 0..len {
+        let b = *rng.pick(b"ABCDEFGHKLMNPRSTUVWXYZabcdefghkmnpqrstuvwxyz0123456789");
+        if mask_pos.contains(&i) {
+            let hi = rng.chance(1, 2);
+            let (v, m) = if hi { (b & 0xF0, 0xF0u8) } else { (b & 0x0F, 0x0Fu8) };
+            items.push(Re::Cls(Cls::Mask(v, m))); sig.push(m);
+            inst.push(v | (if hi { rng.below(16) as u8 } else { (rng.below(16) as u8) << 4 }));
+        } else { items.push(Re::Cls(Cls::Byte(b))); sig.push(0xFF); inst.push(b); }
+    }
+    let mut positions: Vec<usize> = if len <= 20 { (0..len).collect() } else {
+        let mut v = vec![0, 1, len - 2, len - 1];
+        for k in (16..len + 2).step_by(16) { for d in [-1i64, 0, 1] { let q = k as i64 + d; if q >= 0 && (q as usize) < len { v.push(q as usize); } } }
+        v.push(rng.below(len as u64) as usize);
+        v.sort(); v.dedup(); v };
+    positions.insert(0, usize::MAX);                        // the genuine instance first
+    let per_buf = (260 / (len + 1)).max(1);
+    let mut bufs = vec![];
+    for chunk in positions.chunks(per_buf) {
+        let mut buf = vec![];
+        for &q in chunk {
+            let mut v = inst.clone();
+            if q != usize::MAX { let bit = { let m = sig[q]; let mut k = rng.below(8); while m & (1 << k) == 0 { k = (k + 1) % 8; } 1u8 << k }; v[q] ^= bit; }
+            buf.extend(&v); buf.push(b' ');
+        }
+        buf.pop();                                          // the last instance ends at the last byte
+        bufs.push(buf);
+    }
+    (Pat::Hex(Re::Cat(items)), bufs)
+}
+
 fn main() { let args: Vec<String> = std::env::args().skip(1).collect(); std::process::exit(run(&args)); }
 
 pub fn run(args: &[String]) -> i32 {
@@ -899,9 +1020,37 @@ pub fn run(args: &[String]) -> i32 {
     if only.as_deref() != Some("a") {
         for (p, data, mm) in corpus() {
             idx += 1;
-            match scan_case(&p, &data, 0, false, mm, idx) {
+            match scan_case(&p, &data, 0, 0, mm, idx) {
                 Ok((case, replay, _)) => { stats.inc("corpus"); shards.push(case, replay); }
-                Err(e) => { eprintln!("c01: corpus case rejected: {e}\n{}", rule_source(&p, 0, false)); return 2; }
+                Err(e) => { eprintln!("c01: corpus case rejected: {e}\n{}", rule_source(&p, 0, 0)); return 2; }
+            }
+        }
+    }
+    if only.is_none() || only.as_deref() == Some("c") {
+        // stream (c): about 30% of the cases, in rotation: 3 x c2, 1 x c1, 1 x c3
+        let budget = if only.is_some() { n } else { shards.total + n * 3 / 10 };
+        let mut round = 0usize;
+        while shards.total < budget.min(n) {
+            round += 1; idx += 1;
+            let cond = rng.below(CONDS.len() as u64) as usize;
+            let push = |p: &Pat, data: &[u8], noise: usize, tag: &str, stats: &mut Stats, shards: &mut Shards, distinct: &mut std::collections::HashSet<String>| -> bool {
+                match scan_case(p, data, cond, noise, None, idx) {
+                    Ok((case, replay, o)) => {
+                        stats.inc(tag); stats.add(&format!("{}_matches", tag), o.matches.len() as u64);
+                        if !o.matches.is_empty() { distinct.insert(format!("{}|{}", yara_pat(p), hex(data))); }
+                        shards.push(case, replay); true }
+                    Err(e) => { eprintln!("c01: directed pattern rejected: {e}\n{}", rule_source(p, cond, noise)); false }
+                }
+            };
+            match round % 5 {
+                0 => { let (p, d) = directed_jump_mask(&mut rng, (round / 5) % 2 == 0);
+                       if !push(&p, &d, 0, if (round / 5) % 2 == 0 { "directed_jump_mask_fwd" } else { "directed_jump_mask_bck" }, &mut stats, &mut shards, &mut distinct) { return 2; } }
+                1 => { let len = MASKED_LITERAL_LENGTHS[(round / 5) % MASKED_LITERAL_LENGTHS.len()];
+                       let (p, bufs) = directed_masked_literal(&mut rng, len);
+                       for d in bufs { if !push(&p, &d, 0, "directed_masked_literal", &mut stats, &mut shards, &mut distinct) { return 2; } } }
+                _ => { let (p, d, noise) = directed_teddy(&mut rng);
+                       let tag = match noise + 1 { 1..=32 => "directed_kernel_le_32_atoms", 33..=64 => "directed_kernel_33_64_atoms", _ => "directed_kernel_over_64_atoms" };
+                       if !push(&p, &d, noise, tag, &mut stats, &mut shards, &mut distinct) { return 2; } }
             }
         }
     }
@@ -918,7 +1067,8 @@ pub fn run(args: &[String]) -> i32 {
         let has_big = shape(&p).contains("biggap");
         let limit = match &p { Pat::Hex(_) if has_big => 280, Pat::Regexp(..) => 48, _ => if rng.chance(1, 10) { 120 } else { 48 } };
         let cond = rng.below(CONDS.len() as u64) as usize;
-        let noise = rng.chance(1, 4);
+        // rule-set sizes on both sides of the kernel thresholds (32 / 64 atoms)
+        let noise = if rng.chance(1, 3) { *rng.pick(&[3usize, 7, 20, 31, 32, 39, 47, 62, 63, 64, 70]) } else { 0 };
         // several buffers per pattern
         let nbuf = 1 + rng.below(3) as usize;
         for _ in 0..nbuf {
@@ -933,12 +1083,12 @@ pub fn run(args: &[String]) -> i32 {
                     if o.matches.first().map_or(false, |m| m.0 == 0) { stats.inc("match_at_offset_0"); }
                     if o.matches.iter().any(|m| m.0 + m.1 == data.len()) { stats.inc("match_ends_at_last_byte"); }
                     if o.matches.windows(2).any(|w| w[0].0 + w[0].1 > w[1].0) { stats.inc("overlapping_matches"); }
-                    if noise { stats.inc("aho_corasick_forced"); }
+                    if noise > 0 { stats.inc(match noise { 1..=31 => "ruleset_le_32_atoms", 32..=63 => "ruleset_33_64_atoms", _ => "ruleset_over_64_atoms" }); }
                     if mm.is_some() { stats.inc("with_max_matches"); }
                     if o.panic.is_some() { stats.inc("scan_panicked"); }
                     if data.len() > 200 { stats.inc("data_over_200"); }
                     if !o.matches.is_empty() { distinct.insert(format!("{}|{}", yara_pat(&p), hex(&data))); }
-                    if samples.len() < 3 && o.matches.len() >= 2 && !noise { samples.push(replay.clone()); }
+                    if samples.len() < 3 && o.matches.len() >= 2 && noise == 0 { samples.push(replay.clone()); }
                     shards.push(case, replay);
                 }
                 Err(e) => {
